@@ -221,6 +221,20 @@ Proof.
   apply IH; [exact Hc|]. apply Hrest; assumption.
 Qed.
 
+(* ---- heaps with a rank (DAGs): walks only go up ---- *)
+Definition ranked (rank : oid -> nat) (h : heap) : Prop :=
+  forall x f y, In y (h x f) -> rank x < rank y.
+
+Lemma visits_rank t rank h o fo g : ranked rank h -> forall x, visits t h g x o fo = true -> rank x <= rank o.
+Proof.
+  intros R. induction g as [fs n e cs IH] using graph_ind'. intros x. cbn [visits]. rewrite Forall_forall in IH.
+  intros A. apply existsb_exists in A. destruct A as [f [Hf A]]. apply andb_true_iff in A. destruct A as [_ A].
+  apply orb_true_iff in A. destruct A as [A|A].
+  - apply slot_eqb_true in A. destruct A as [-> _]. lia.
+  - apply existsb_exists in A. destruct A as [y [Hy A]]. apply existsb_exists in A. destruct A as [c [Hc A]].
+    apply (IH c Hc y) in A. pose proof (R x f y Hy). lia.
+Qed.
+
 (* Σ_{y ∈ ys} Σ_{c ∈ cs} expected t h k c y *)
 Definition sumexp (t : traits) (h : heap) (k : hkey) (cs : list graph) (ys : list oid) : list hook :=
   flat_map (fun y => flat_map (fun c => expected t h k c y) cs) ys.
